@@ -63,6 +63,16 @@ SEEDS = {
           "resume of an outer region whose resumable sub-state lies in the left half and is itself a non-Resumable region holding a non-initial resumable sub-state"),
  "C16b": ("GuardControlT::cancelPendingTransitions reports (and sets the flag) only if not already cancelled",
           "two cancellations within one guard pass (orthogonal siblings, or one guard cancelling twice)"),
+ "C02c": ("R_::reset re-activates with `_apex.deepRequestRestart` instead of `deepRequestChange`: every region on the re-entry path takes its first sub-state instead of choosing by its declared strategy",
+          "reset() on a machine with a Selectable / Utilitarian / Random region on the default-activation path whose choice is not the first sub-state"),
+ "C04c": ("OS_::wideForwardExitGuard (last-prong overload without prong mask) forwards to deepForwardEntryGuard: the exit guards below the last prong are never asked, the entry guards there run twice",
+          "a request aimed at an orthogonal root itself while the last prong holds a composite region with a pending change whose leaving state has an exit guard (that cancels)"),
+ "C07c": ("PlanT::remove, tail branch: `_bounds.last = _bounds.first` instead of `link.prev`",
+          "a plan with three or more tasks, its last task removed, then another append to the same region: the middle tasks drop out of the list while occupying slots"),
+ "C12c": ("C_::resolveRandom: `cursor > utilities[i]` instead of `>=` - the cumulative intervals become closed at the top",
+          "a generator output r with r * sum exactly on a cumulative boundary (r = 0 with a zero-utility first top-rank sub-state, or an exact partial sum)"),
+ "C14c": ("R_::processTransitions passes the index inside the round (`i`) instead of `currentTransitions.count() + i` to applyRequest (undoes the repair of D14): lastTransitionTo / lastTransition of states activated in a later round point at a request of the first round",
+          "transition history; a step with two approved substitution rounds (a guard that requests without cancelling); ask the state activated by the second round for its last transition / payload"),
 }
 
 
